@@ -301,7 +301,7 @@ def step (A : System.Arith R) (s : St R) : Op R → St R × Out
     else if !s.started then
       ({ s with started := true, now := t, t0 := t, ent := Entry.init t, eh := [], cb := { s.cb with now := t } }, .none)
     else if t < s.now then (s, .bad)
-    else ({ s with now := t, cb := (CB.step CB.laOps s.cb (.clock t)).1 }, .none)
+    else ({ s with now := t, cb := { s.cb with now := t } }, .none)
   | .loadSys rs => if !s.started then (s, .bad) else ({ s with sysRules := System.loadRules A rs }, .none)
   | .loadFlow rs => if !s.started || s.flowLoaded then (s, .bad) else (loadFlow s rs, .none)
   | .loadIso rs => if !s.started then (s, .bad) else ({ s with iso := (Iso.step s.iso (.load rs)).1 }, .none)
